@@ -179,7 +179,7 @@ struct BlockSearch {
             const std::vector<int> h = frontier.front(); frontier.pop_front();
             if(int(h.size()) >= depth) continue;
             for(int op = 0 ; op < NbOps ; ++op){
-                if(rep.timeUp()){ rep.exhaustive = false; return; }
+                if(rep.timeUp()){ rep.cutSpace("memory block " + name + " depth " + std::to_string(depth) + ": interrupted after states=" + std::to_string(states) + " transitions=" + std::to_string(transitions)); return; }
                 std::vector<int> h2 = h; h2.push_back(op);
                 std::string cs = "memory block " + name + " history=";
                 for(size_t i = 0 ; i < h2.size() ; ++i) cs += (i ? " ; " : "") + opName(h2[i]);
@@ -343,7 +343,7 @@ void treeSpace(const int height, const int maxSubset, const std::vector<int>& mo
     const long nLeaves = 1L << (Dim*(height-1));
     rep.spaces.push_back("views over byte copies: dim=" + std::to_string(Dim) + " height=" + std::to_string(height) + " patterns=" + (maxSubset ? "subsets<=" + std::to_string(maxSubset) : std::string("all")) + " x block sizes x grouping modes");
     forEachPattern(nLeaves, maxSubset, args.slice, args.nbSlices, [&](const std::vector<long>& leaves){
-        if(rep.timeUp()){ rep.exhaustive = false; return; }
+        if(rep.timeUp()){ rep.cut(); return; }
         for(const int motif : motifs) for(const long bs : blockSizesFor(long(leaves.size()), maxSubset == 0)) for(int og = 0 ; og < 2 ; ++og){
             const Spec s = makeSpec(Dim, height, leaves, motif, boxes()[0], bs, og != 0, 2);
             if(!pg.begin(s.str())) continue;
